@@ -183,6 +183,8 @@ impl Matrix {
         let mut k1 = 1_u64; // u1 = 0, v1 = 1
         let mut even = true;
         if a1 < LIMIT {
+            #[cfg(recmo_uint_verif)]
+            crate::verif_hooks::hit(crate::verif_hooks::C::LEHMER_ID_A1_SMALL);
             return Matrix::IDENTITY;
         }
 
@@ -196,8 +198,12 @@ impl Matrix {
 
             // Test i + 1 (odd)
             if a2 >= v2 && a1 - a2 >= u2 {
+                #[cfg(recmo_uint_verif)]
+                crate::verif_hooks::hit(crate::verif_hooks::C::LEHMER_A2_SMALL_ACCEPT);
                 return Matrix(0, 1, u2, v2, false);
             } else {
+                #[cfg(recmo_uint_verif)]
+                crate::verif_hooks::hit(crate::verif_hooks::C::LEHMER_A2_SMALL_REJECT);
                 return Matrix::IDENTITY;
             }
         }
@@ -260,13 +266,19 @@ impl Matrix {
                 // Test i + 2 (even)
                 if a3 >= u3 && a2 - a3 >= v3 + v2 {
                     // Correct value is i + 2
+                    #[cfg(recmo_uint_verif)]
+                    crate::verif_hooks::hit(crate::verif_hooks::C::LEHMER_EVEN_I2);
                     Matrix(u2, v2, u3, v3, true)
                 } else {
                     // Correct value is i + 1
+                    #[cfg(recmo_uint_verif)]
+                    crate::verif_hooks::hit(crate::verif_hooks::C::LEHMER_EVEN_I1);
                     Matrix(u1, v1, u2, v2, false)
                 }
             } else {
                 // Correct value is i
+                #[cfg(recmo_uint_verif)]
+                crate::verif_hooks::hit(crate::verif_hooks::C::LEHMER_EVEN_I);
                 Matrix(u0, v0, u1, v1, true)
             }
         } else {
@@ -276,13 +288,19 @@ impl Matrix {
                 // Test i + 2 (odd)
                 if a3 >= v3 && a2 - a3 >= u3 + u2 {
                     // Correct value is i + 2
+                    #[cfg(recmo_uint_verif)]
+                    crate::verif_hooks::hit(crate::verif_hooks::C::LEHMER_ODD_I2);
                     Matrix(u2, v2, u3, v3, false)
                 } else {
                     // Correct value is i + 1
+                    #[cfg(recmo_uint_verif)]
+                    crate::verif_hooks::hit(crate::verif_hooks::C::LEHMER_ODD_I1);
                     Matrix(u1, v1, u2, v2, true)
                 }
             } else {
                 // Correct value is i
+                #[cfg(recmo_uint_verif)]
+                crate::verif_hooks::hit(crate::verif_hooks::C::LEHMER_ODD_I);
                 Matrix(u0, v0, u1, v1, false)
             }
         }
